@@ -27,7 +27,7 @@ def run(prop, tier, seed, profiles, n_quick, n_thorough, also=(), assumptions=()
     results = [r for r in results if "crash" in r or select is None or select(r["program"])]
     st = campaign.stats_of(results)
     corr = []
-    n_spec = n_sqlmodel = 0
+    n_spec = n_sqlmodel = n_shape = 0
     if po["build"]["ok"]:
         items = []
         for r in results:
@@ -58,6 +58,12 @@ def run(prop, tier, seed, profiles, n_quick, n_thorough, also=(), assumptions=()
                         # the property's oracle: the real backend deviates from the documented meaning
                         r["diffs"].append(dict(kind="spec_differs", stmt=stt["id"], op="export", backend=be, detail=d,
                                                dclass="names" if d.startswith("names") else "rowcount" if d.startswith("row counts") else "cell"))
+                if be == "sqlite" and o.get("query") and not has_marker_risk(p):
+                    mo_x = next((x for x in m if x.get("id") == stt["id"]), None)
+                    sd = front.shape_diff((mo_x or {}).get("shape"), o["query"])
+                    n_shape += 1
+                    if sd:
+                        corr.append(dict(kind="sql_model_query_shape", stmt=stt["id"], seed=p.get("seed"), profile=p.get("profile"), detail=sd))
                 if be == "sqlite" and stt["id"] in sqlm and not has_marker_risk(p):
                     mf = sqlm[stt["id"]]
                     if isinstance(mf, str):
@@ -91,7 +97,7 @@ def run(prop, tier, seed, profiles, n_quick, n_thorough, also=(), assumptions=()
         v.violation("unproved", dict(what=f"a proof obligation or the model/code correspondence of {prop} no longer checks and the search over "
                                           "the real code found no failing input", broken=broken, theorems=po.get("theorems")), no_input=True)
     v.coverage = coverage(po, results, st, corr, known_hits,
-                          extra=dict(frames_compared_with_spec=n_spec, sqlite_frames_compared_with_sql_model=n_sqlmodel))
+                          extra=dict(frames_compared_with_spec=n_spec, sqlite_frames_compared_with_sql_model=n_sqlmodel, query_shapes_compared=n_shape))
     if level_rule:
         v.coverage["rule"] += "; " + level_rule
     v.assumptions = list(assumptions)
